@@ -67,7 +67,7 @@ func main() {
 		}
 		w := Load(*root)
 		r := NewReport(rp.Property)
-		spec.Run(w, r)
+		runRules(spec, w, r)
 		found := false
 		for _, o := range r.Obs {
 			if o.Rule == rp.Obligation.Rule && o.Key == rp.Obligation.Key {
@@ -112,7 +112,7 @@ func main() {
 	start := time.Now()
 	w := Load(*root)
 	r := NewReport(*prop)
-	spec.Run(w, r)
+	runRules(spec, w, r)
 	if len(r.Obs) == 0 {
 		infra("property %s: no obligation was generated — the rules matched nothing", *prop)
 	}
@@ -144,4 +144,31 @@ func main() {
 		}
 		infra("%d seeded variant(s) of property %s did not behave as required: the checker is broken, its verdict is void", len(selfTestFailures), spec.ID)
 	}
+}
+
+// runRules runs the property's rules. A rule that cannot resolve what it is
+// anchored at (or panics) on a tree that loaded and type-checked leaves the
+// property undecided; that is reported as a non-discharged obligation of the
+// pseudo-rule R-UNDECIDED (a violation with the rule's message), not as a
+// silent pass and not as an infrastructure failure of the run.
+func runRules(spec *PropSpec, w *World, r *Report) {
+	defer func() {
+		if e := recover(); e != nil {
+			msg := ""
+			if ie, ok := e.(InfraError); ok {
+				msg = ie.Msg
+			} else {
+				msg = fmt.Sprintf("panic in the checker: %v", e)
+				if os.Getenv("JDLINT_DEBUG") != "" {
+					msg += "\n" + string(debug.Stack())
+				}
+			}
+			key := msg
+			if len(key) > 90 {
+				key = key[:90]
+			}
+			r.Unk("R-UNDECIDED", "checker:"+key, "-", "the rules of this property could not be evaluated on this tree: "+msg+" — the remaining rules were not run; the property is undecided, which counts as a violation")
+		}
+	}()
+	spec.Run(w, r)
 }
